@@ -3,7 +3,7 @@
    vm_compute on generated data) and followed by [Print Assumptions].
    Model: Model/C15.v   Lemmas: Proofs/C15.v   Generated data: Generated/C15JumpTable.v *)
 From Coq Require Import List NArith Bool String.
-From GQ Require Import Lib.C15_Row Generated.C15JumpTable Model.C15 Proofs.C15.
+From GQ Require Import Lib.C15_Row Lib.C15_Wire Generated.C15JumpTable Model.C15 Proofs.C15 Proofs.C15_Wire.
 Import ListNotations.
 Local Open Scope N_scope.
 
@@ -175,6 +175,41 @@ Theorem tables_without_etx_metered :
 Proof. vm_compute. reflexivity. Qed.
 Print Assumptions tables_without_etx_metered.
 
+(* ---------- (A) hand-written length-prefixed parsers allocate proportionally ---------- *)
+
+(* CompactSize: a successful read consumes at least one byte and leaves a suffix of the input *)
+Theorem read_varint_consumes : forall b v r,
+  read_varint b = Some (v, r) -> suffix r b /\ len r < len b.
+Proof. exact read_varint_consumes_lemma. Qed.
+Print Assumptions read_varint_consumes.
+
+(* decode_alloc_linear for ExtractScriptSigFromCoinbaseTx: the returned scriptSig is a contiguous
+   piece of the input behind 42 bytes of framing (or empty), hence what is allocated is <= |input| *)
+Theorem script_sig_within_input : forall tx s,
+  extract_script_sig tx = Some s -> infix s tx /\ len s + 42 <= len tx \/ s = [].
+Proof. exact script_sig_within_input_lemma. Qed.
+Print Assumptions script_sig_within_input.
+
+Theorem decode_alloc_linear : forall tx, script_sig_alloc tx <= len tx.
+Proof. exact script_sig_alloc_linear_lemma. Qed.
+Print Assumptions decode_alloc_linear.
+
+(* no length prefix is trusted beyond the remaining input *)
+Theorem script_sig_refuses_overlong : forall tx c r1 n r3,
+  read_varint (drop 4 tx) = Some (c, r1) ->
+  read_varint (drop 36 r1) = Some (n, r3) ->
+  len r3 < n -> extract_script_sig tx = None.
+Proof. exact script_sig_refuses_overlong_lemma. Qed.
+Print Assumptions script_sig_refuses_overlong.
+
+(* the seal hash is 32 bytes taken from inside the scriptSig; the pipeline tx -> scriptSig -> seal
+   hash allocates at most |tx| + 32 bytes *)
+Theorem coinbase_pipeline_alloc_linear : forall tx s hsh,
+  extract_script_sig tx = Some s -> extract_seal_hash s = Some hsh ->
+  len s + len hsh <= len tx + 32 /\ infix hsh tx.
+Proof. exact coinbase_pipeline_alloc_linear_lemma. Qed.
+Print Assumptions coinbase_pipeline_alloc_linear.
+
 (* ---------- non-vacuity ---------- *)
 
 (* a metered table with memory opcodes exists (the generated one minus ETX) and a real program
@@ -206,4 +241,11 @@ Example current_tree_partial_nonvacuous :
   ex_req_bounded [opcode_ETX] 64 [(opcode_ETX, mkA 10 ETXGas (Some 40) None); (opcode_MSTORE, mkA 2 3 (Some 96) (Some 0))] = true /\
   run table_postfork [(opcode_ETX, mkA 10 ETXGas (Some 40) None); (opcode_MSTORE, mkA 2 3 (Some 96) (Some 0))] (init 30000)
   = (VOk, mkM 8988 96 9).
+Proof. split; vm_compute; reflexivity. Qed.
+
+(* a coinbase whose scriptSig length prefix (0xfd 0xff 0xff = 65535) exceeds the 3 remaining bytes is refused;
+   a well-formed one yields its scriptSig *)
+Example script_sig_nonvacuous :
+  extract_script_sig (repeat 0 4 ++ [1] ++ repeat 0 36 ++ [253; 255; 255] ++ [1; 2; 3]) = None /\
+  extract_script_sig (repeat 0 4 ++ [1] ++ repeat 0 36 ++ [3] ++ [7; 8; 9] ++ [255; 255]) = Some [7; 8; 9].
 Proof. split; vm_compute; reflexivity. Qed.
